@@ -3,13 +3,15 @@
 id=$1; wt=/tmp/seedcheck; s=/verif/seeded/$id
 export GOFLAGS=-mod=mod GOPROXY=off GOSUMDB=off GOTOOLCHAIN=local
 race=""; case $id in C05|C15) race="-race";; esac
-cd $wt && git checkout -q -- . && rm -f seed_demo_test.go
-cp $s/seed_demo_test.go . 
-without=$(go test $race -vet=off -count=1 -run '^TestSeedDemo$' . 2>&1 | tail -1)
+demo=seed_demo_test.go; [ -f $s/demo_path.txt ] && demo=$(cat $s/demo_path.txt)
+pkg=./$(dirname $demo)
+cd $wt && git checkout -q -- . && git clean -fdq
+cp $s/seed_demo_test.go $demo
+without=$(go test $race -vet=off -count=1 -run '^TestSeedDemo$' $pkg 2>&1 | tail -1)
 git apply $s/patch.diff || { echo "$id APPLY-FAILED"; exit 1; }
 go build ./... || { echo "$id BUILD-FAILED"; exit 1; }
-with=$(go test $race -vet=off -count=1 -run '^TestSeedDemo$' . 2>&1 | tail -1)
-rm -f seed_demo_test.go
+with=$(go test $race -vet=off -count=1 -run '^TestSeedDemo$' $pkg 2>&1 | tail -1)
+rm -f $demo
 suite=$(/verif/tools_suite.sh $wt 2>&1 | grep -a "baseline missing")
 git checkout -q -- .
 echo "$id demo-without: $without | demo-with: $with | suite-with: $suite"
